@@ -14,7 +14,8 @@ open Cstruct
     structures, nested arrays, variable-size elements), whatever the input. -/
 theorem c07_fixed (cfg : Cfg) (e : Ty) (n : Nat) (ctx : Ctx) (d : Bytes) (pos : Nat) (v : Val) (p : Nat)
     (h : read cfg (.arr e (.fixed n)) ctx d pos = .ok (v, p)) : count v = n := by
-  sorry
+  rw [Core.Lemmas.read_arr_fixed] at h
+  exact Lemmas.readArray_count cfg e n ctx d pos v p h
 
 /-- **x[expr] holds max(0, expr) elements**, the expression being evaluated over the fields parsed before it (integer-like
     ones), falling back to the constants (the lookup order is C10's `Atom`: context first). -/
@@ -22,7 +23,9 @@ theorem c07_expr (cfg : Cfg) (e : Ty) (toks : List String) (ctx : Ctx) (d : Byte
     (hx : (Expr.Obj.evaluate ⟨toks⟩ { ctx := Ctx.ints ctx, consts := cfg.consts, sizeof := fun _ => .error .resolve }).2 = .ok x) :
     read cfg (.arr e (.expr toks)) ctx d pos = read cfg (.arr e (.fixed x.toNat)) ctx d pos ∧
     (x ≤ 0 → x.toNat = 0) ∧ (0 ≤ x → (x.toNat : Int) = x) := by
-  sorry
+  refine ⟨?_, fun h => by omega, fun h => by omega⟩
+  rw [Core.Lemmas.read_arr_expr, Lemmas.evalLen_ok cfg toks ctx x hx, Core.Lemmas.read_arr_fixed]
+  rfl
 
 /-- **x[] over an integer type stops at and consumes the first zero element**: the result holds the `n` elements before it,
     none of which is zero, each read at its own offset, and the end position is just past the terminator. -/
@@ -31,13 +34,16 @@ theorem c07_nullterm_int (cfg : Cfg) (k : Nat) (sg : Bool) (a : Nat) (hk : 0 < k
     ∃ vs : List Int, v = .list (Vals.ofList (vs.map .int)) ∧ (∀ x ∈ vs, x ≠ 0) ∧ p = pos + (vs.length + 1) * k ∧
       (∀ i (hi : i < vs.length), readScalar cfg (.pint k sg) d (pos + i * k) = .ok (.int vs[i], pos + (i + 1) * k)) ∧
       readScalar cfg (.pint k sg) d (pos + vs.length * k) = .ok (.int 0, p) := by
-  sorry
+  have _ := hk
+  rw [Core.Lemmas.read_arr_null, Lemmas.read0_sc] at h
+  exact Lemmas.readScalarNullTerm_pint cfg k sg d pos v p h
 
 /-- **char x[]** is the bytes up to the first NUL, which is consumed and not part of the value. -/
 theorem c07_nullterm_char (cfg : Cfg) (a : Nat) (ctx : Ctx) (d : Bytes) (pos : Nat) (v : Val) (p : Nat)
     (h : read cfg (.arr (.sc .char a) .nullTerm) ctx d pos = .ok (v, p)) :
     ∃ b : Bytes, v = .bytes b ∧ (∀ x ∈ b, x ≠ 0) ∧ p = pos + b.length + 1 ∧ (d.drop pos).take (b.length + 1) = b ++ [0] := by
-  sorry
+  rw [Core.Lemmas.read_arr_null, Lemmas.read0_sc] at h
+  exact Lemmas.readScalarNullTerm_char cfg d pos v p h
 
 /-- **Dumping re-appends the terminator**: a null-terminated array is written as its elements followed by one zero
     element (integers) / one NUL byte (char). -/
@@ -46,26 +52,42 @@ theorem c07_nullterm_write (cfg : Cfg) (k : Nat) (sg : Bool) (a : Nat) (vs : Lis
     (∀ bs, write cfg (.arr (.sc (.pint k sg) a) .nullTerm) (.list (Vals.ofList (vs.map .int))) pos = .ok bs →
       ∃ body zero, bs = body ++ zero ∧ encodeInt cfg.endian k sg 0 = some zero ∧
         write cfg (.arr (.sc (.pint k sg) a) (.fixed vs.length)) (.list (Vals.ofList (vs.map .int))) pos = .ok body) := by
-  sorry
+  refine ⟨Lemmas.write_arr_null_chars cfg a b pos, ?_⟩
+  intro bs h
+  rw [Lemmas.write_arr_null_list, Lemmas.default_pint, Lemmas.ofList_snoc] at h
+  obtain ⟨body, last, h1, h2, h3⟩ := Lemmas.writeN_append cfg _ _ _ _ _ h
+  refine ⟨body, last, h1, Lemmas.write_pint_zero cfg k sg a _ last h3, ?_⟩
+  rw [Core.Lemmas.write_arr_list, Lemmas.ofList_length, List.length_map]
+  simp only [ne_eq, not_true_eq_false, and_false, if_false]
+  exact h2
 
 /-- **A fixed-size array of non-character elements with another number of elements is refused** on dump. -/
 theorem c07_size_refused (cfg : Cfg) (e : Ty) (n : Nat) (vs : Vals) (pos : Nat) (hstatic : (e.size cfg).isSome = true)
     (hlen : vs.length ≠ n) : write cfg (.arr e (.fixed n)) (.list vs) pos = .error .arraySize := by
-  sorry
+  rw [Core.Lemmas.write_arr_list]
+  simp only [hstatic, ne_eq, hlen, not_false_eq_true, and_self, if_true]
 
 /-- **The bulk readers are the element reader, repeated**: `Packed._read_array`'s single `struct.unpack` of `n` items yields
     exactly what reading the `n` elements one after the other yields, and ends at the same position. -/
 theorem c07_fastpath (cfg : Cfg) (k : Nat) (sg : Bool) (a : Nat) (n : Nat) (ctx : Ctx) (d : Bytes) (pos : Nat) :
     read cfg (.arr (.sc (.pint k sg) a) (.fixed n)) ctx d pos =
       (readN cfg (.sc (.pint k sg) a) n ctx d pos).map (fun (vs, p) => (Val.list vs, p)) := by
-  sorry
+  rw [Core.Lemmas.read_arr_fixed]
+  exact Lemmas.readArray_pint cfg k sg a n ctx d pos
 
 /-- **Multi-dimensional arrays nest in C order**: `x[n][m]` is `n` rows of `m` elements, row `i` read where row `i-1` ended;
     for an element type of fixed size `k` the element `(i, j)` therefore sits at offset `(i * m + j) * k`. -/
 theorem c07_multidim (cfg : Cfg) (e : Ty) (n m : Nat) (ctx : Ctx) (d : Bytes) (pos : Nat) (v : Val) (p : Nat)
     (h : read cfg (.arr (.arr e (.fixed m)) (.fixed n)) ctx d pos = .ok (v, p)) :
     ∃ rows : Vals, v = .list rows ∧ rows.length = n ∧ ∀ r ∈ rows.toList, count r = m := by
-  sorry
+  rw [Core.Lemmas.read_arr_fixed,
+    Lemmas.readArray_other cfg _ n ctx d pos (by intros; intro h; cases h) (by intros; intro h; cases h)] at h
+  obtain ⟨⟨rows, q⟩, h1, h2⟩ := Core.Lemmas.map_ok h
+  cases h2
+  refine ⟨rows, rfl, Lemmas.readN_length cfg _ ctx d _ _ _ _ h1, ?_⟩
+  intro r hr
+  obtain ⟨pos', p', h3⟩ := Lemmas.readN_mem cfg _ ctx d _ _ _ _ h1 r hr
+  exact c07_fixed cfg e m ctx d pos' r p' h3
 
 /-- **x[EOF] over a packed integer type takes every remaining whole element**: when the rest of the input is `m` whole
     elements the result has exactly `m` elements and the stream is at the end; a partial trailing element is an EOFError. -/
@@ -73,6 +95,12 @@ theorem c07_eof (cfg : Cfg) (k : Nat) (sg : Bool) (a : Nat) (hk : 0 < k) (ctx : 
     ((d.length - pos) % k = 0 →
       ∃ vs, read cfg (.arr (.sc (.pint k sg) a) .eof) ctx d pos = .ok (.list vs, d.length) ∧ vs.length = (d.length - pos) / k) ∧
     ((d.length - pos) % k ≠ 0 → read cfg (.arr (.sc (.pint k sg) a) .eof) ctx d pos = .error .eof) := by
-  sorry
+  rw [Lemmas.read_arr_eof, Lemmas.readEOF_pint cfg k sg a ctx d pos hk, Nat.max_eq_right hpos]
+  constructor
+  · intro h0
+    refine ⟨_, by simp only [h0, ne_eq, not_true_eq_false, if_false]; rfl, ?_⟩
+    simp only [Vals.ofInts, Lemmas.ofList_length, List.length_map, Lemmas.splitEvery_length]
+  · intro h0
+    simp only [ne_eq, h0, not_false_eq_true, if_true]
 
 end Cstruct.C07
